@@ -646,3 +646,62 @@ def per_return_ignored(fn: Func) -> list[tuple[ast.Return, set[str]]]:
         ignored = all_infl - infl[id(r)] - cond
         out.append((r, ignored))
     return out
+
+
+# ------------------------------------------------------------------------------------------- tiny integer expression evaluator
+
+
+def eval_int_expr(e: ast.expr, env: dict[str, int], fold: Callable[[ast.expr], Any]) -> int | None:
+    """Value of a side-effect-free integer expression (the single `return` expression of a small helper) for given parameter
+    values: + - * // % >> << & | ^ ~ unary -, abs/min/max/int, names from env, anything else through `fold` (class constants).
+    None when the expression uses something else."""
+    if isinstance(e, ast.Constant) and isinstance(e.value, int) and not isinstance(e.value, bool):
+        return e.value
+    if isinstance(e, ast.Name) and e.id in env:
+        return env[e.id]
+    if isinstance(e, ast.BinOp):
+        a, b = eval_int_expr(e.left, env, fold), eval_int_expr(e.right, env, fold)
+        if a is None or b is None:
+            return None
+        try:
+            if isinstance(e.op, ast.Add):
+                return a + b
+            if isinstance(e.op, ast.Sub):
+                return a - b
+            if isinstance(e.op, ast.Mult):
+                return a * b
+            if isinstance(e.op, ast.FloorDiv):
+                return a // b
+            if isinstance(e.op, ast.Mod):
+                return a % b
+            if isinstance(e.op, ast.RShift):
+                return a >> b
+            if isinstance(e.op, ast.LShift):
+                return a << b if b < 4096 else None
+            if isinstance(e.op, ast.BitAnd):
+                return a & b
+            if isinstance(e.op, ast.BitOr):
+                return a | b
+            if isinstance(e.op, ast.BitXor):
+                return a ^ b
+        except (ZeroDivisionError, ValueError):
+            return None
+        return None
+    if isinstance(e, ast.UnaryOp):
+        v = eval_int_expr(e.operand, env, fold)
+        if v is None:
+            return None
+        if isinstance(e.op, ast.USub):
+            return -v
+        if isinstance(e.op, ast.Invert):
+            return ~v
+        if isinstance(e.op, ast.UAdd):
+            return v
+        return None
+    if isinstance(e, ast.Call) and isinstance(e.func, ast.Name) and e.func.id in ("abs", "min", "max", "int") and not e.keywords:
+        vs = [eval_int_expr(a, env, fold) for a in e.args]
+        if any(v is None for v in vs) or not vs:
+            return None
+        return {"abs": lambda: abs(vs[0]), "min": lambda: min(vs), "max": lambda: max(vs), "int": lambda: int(vs[0])}[e.func.id]()
+    v = fold(e)
+    return v if isinstance(v, int) and not isinstance(v, bool) else None
